@@ -153,3 +153,18 @@ def grid_pairs(rng, cfg, limit):
     if len(g) * len(g) <= limit:
         return [(a, b) for a in g for b in g]
     return [(rng.choice(g), rng.choice(g)) for _ in range(limit)]
+
+
+# the widest in-scope instantiation of every digit type (8192 bits)
+HUGE_CFGS = ["8x1024", "16x512", "32x256", "64x128"]
+
+
+def huge_values(rng, cfg):
+    """dense / extreme 8192-bit operands: column sums, carries and counters reach their maxima here"""
+    w, n = wn(cfg)
+    W = w * n
+    M = 1 << W
+    B = 1 << w
+    dense = sum(rng.randrange(B - B // 16, B) << (w * i) for i in range(n))
+    alt = sum((B - 1 if i % 2 else 0) << (w * i) for i in range(n))
+    return [M - 1, dense, (M >> 1) - 1, M >> 1, alt, rng.randrange(M), 1, (1 << (W // 2)) + 1]
